@@ -35,3 +35,29 @@ claim('C19', 'deductive VCs (pyvc): per-entry nothrow + frame for the four reade
 claim('C20', 'deductive VCs (pyvc): four readers proved against the same spec terms; scanner vs restore trash-dir/volume pairing; known finding for the home volume',
       'list, restore, rm and empty are each proved to compute join(V, unquote(first Path line)) / first DeletionDate line, and V is proved per kind of trash directory for the scanner and for restore; they agree except for the home trash on its own volume (KNOWN-FINDING)',
       TB + '; both commands are assumed to be given the same volume list', 'DESIGN.md section 4 C20')
+
+PUT_TB = TB + '; OS primitives fork into success / OSError with a symbolic errno; shutil.move phase model; syscalls atomic w.r.t. kills; the argument is not the root directory; TRASH_PUT_FAKE_UID_FOR_TESTING unset; cleanup unlink of a just-created info does not fail'
+claim('C01', 'deductive VCs (pyvc): typestate monitor over all paths of the put attempt, contracts of the fs wrappers, loop invariant of the name search; cross-device residual as known finding',
+      'for every candidate kind, trash-dir spelling, fs state and fault sequence: success = one exclusive reservation then the entry moved to its payload; failure = nothing moved/copied/deleted and the reservation removed; dot entries in every spelling refused before any effect',
+      PUT_TB, 'DESIGN.md section 4 C01')
+claim('C04', 'deductive VCs (pyvc): O_EXCL flag obligation, reservation monitor, loop invariant over arbitrarily many collisions, injectivity lemma; rely/guarantee for schedules (trusted meta-theorem)',
+      'a name is used only when its payload path is absent (lstat) and its .trashinfo was created exclusively by this process; the move targets exactly that payload path; only the own reservation is removed; mkdir -p tolerates concurrent creation',
+      PUT_TB + '; R/G composition and linearisability of open(O_EXCL)/mkdir/rename trusted, interleavings not enumerated', 'DESIGN.md section 4 C04')
+claim('C05', 'deductive VCs (pyvc): prefix-closed monitor invariant on every path of the put attempt; atomic_write event order',
+      'on every path prefix: the payload is moved (one rename on the same volume) only after its .trashinfo was created exclusively and written completely in one write',
+      PUT_TB, 'DESIGN.md section 4 C05')
+claim('C07', 'deductive VCs (pyvc): decision tables (home trash path, candidate list, gates), volume_of loop invariant + variant, mode-constant obligation',
+      'home trash path per XDG rules, exact ordered candidate list, volume_of = nearest mount point above abspath (terminates), a candidate is touched only if volume_of(realpath(trash dir)) equals the volume of the entry (parent resolved), home fallback only with TRASH_ENABLE_HOME_FALLBACK=1, skeleton created 0700',
+      PUT_TB + '; ismount agrees with the mount table; ASSUMED lemma on the shape of volume_of results', 'DESIGN.md section 4 C07')
+claim('C08', 'deductive VCs (pyvc): decision-table equivalence of the write-side and read-side checks; scanner and restore directory VCs for arbitrary volumes',
+      'the .Trash/$uid candidate is touched by put only when $topdir/.Trash is a sticky non-symlink directory; the scanner (list/empty/rm) and restore yield it iff it exists and is secure; list reports a skipped directory on stderr',
+      PUT_TB + '; state based (TOCTOU outside the statement)', 'DESIGN.md section 4 C08')
+claim('C16', 'deductive VCs (pyvc): run_put/trash_each (bounded list length), trash_single nothrow + diagnostics, trash_file diagnostics',
+      'every argument is processed once, in order, with the same options; exit 0 iff no argument failed; every failure is preceded by a stderr line naming the argument; no exception escapes for any argument',
+      PUT_TB + '; BOUNDED: argument lists of length 0..3 in the run_put VC; argparse assumed', 'DESIGN.md section 4 C16')
+claim('C17', 'deductive VCs (pyvc): all-paths fault forking of every primitive, termination variant of the retry loop, C01 monitor on every fault path',
+      'every primitive of the put attempt fails with an arbitrary errno on some path of the VC; all paths end in the C01 post state; the name-search loop has a decreasing variant; every failure reason leads to the next candidate and a diagnostic',
+      PUT_TB, 'DESIGN.md section 4 C17')
+claim('C18', 'deductive VCs (pyvc): lexists obligation, move-source post (normpath, no trailing slash), for_file post (only the parent resolved), volume post',
+      'presence is decided by lstat; the move source is the normalised argument without trailing slash; the recorded location keeps the base name and resolves only the parent; the volume is that of the entry with its parent resolved',
+      PUT_TB + '; rename(2) of a path without trailing slash acts on the link itself (axiom about the OS)', 'DESIGN.md section 4 C18')
